@@ -201,7 +201,8 @@ Proof.
   assert (Hot : match map (option_map (@to_tensor T)) outs with [o] => o | _ => None end = None)
     by (destruct Ho; subst; reflexivity).
   destruct m; try discriminate;
-    repeat match type of Hd with (if ?c then Err _ else _) = _ => destruct c; try discriminate end;
+    (match type of Hd with match disc_reject ?mm ?k ?a with _ => _ end = _ =>
+       destruct (disc_reject mm k a) eqn:Erej; [discriminate|] end);
     rewrite Hot in Hd; cbn [is_at] in Hd |- *;
     match type of Hd with
       match Model.tens_ufunc ?c ?v ?np ?s ?sp ?n ?mm ?i ?k ?o with _ => _ end = _ =>
@@ -279,7 +280,7 @@ Proof.
   assert (Hkd : kw_dtype (kw_drop_keepdims kw) = None) by exact Hd.
   pose proof (to_tensor_valid o Hv) as Hvt.
   assert (Hbt : op_buf (to_tensor o) = Some id) by (rewrite to_tensor_buf; exact Hb).
-  destruct m; try discriminate; cbn [is_at] in Hdu.
+  destruct m; cbn [disc_reject is_at] in Hdu; try discriminate.
   - (* __call__ *)
     cbn [Nat.eqb orb negb] in Hdu. unfold pad_none in Hdu. cbn [length Nat.sub repeat app] in Hdu.
     match type of Hdu with
